@@ -82,6 +82,22 @@ def base_rules(repo, res):
                      ["np.transpose((tbl['x_peak'], tbl['y_peak']))", 'None'], 'the (x, y) peak positions')
 
 
+def kernel_rules(repo, res):
+    """Elliptical Gaussian kernel: quadratic form a*dx^2 + 2*b*dx*dy + c*dy^2 rotated counter-clockwise by theta."""
+    k = repo.get_function('photutils.detection.core._StarFinderKernel.__init__')
+    pool = [s for s in ast.walk(k.node) if isinstance(s, ast.Assign)]
+    for w, meaning in (
+            ('self.a = ' + nf_text('(cost**2 / (2.0 * xsigma2)) + (sint**2 / (2.0 * ysigma2))'), 'x^2 coefficient'),
+            ('self.b = ' + nf_text('0.5 * cost * sint * ((1.0 / xsigma2) - (1.0 / ysigma2))'), 'cross coefficient (counter-clockwise theta)'),
+            ('self.c = ' + nf_text('(sint**2 / (2.0 * xsigma2)) + (cost**2 / (2.0 * ysigma2))'), 'y^2 coefficient'),
+            ('self.elliptical_radius = ' + nf_text('self.a * (xx - self.xc)**2 + 2.0 * self.b * (xx - self.xc) * (yy - self.yc) + self.c * (yy - self.yc)**2'),
+             'quadratic form on the grid'),
+            ('self.ysigma = ' + nf_text('self.xsigma * self.ratio'), 'minor-axis sigma'),
+            ('theta_radians = ' + nf_text('np.deg2rad(self.theta)'), 'theta in degrees'),
+            (nf_text('(yy, xx)') + ' = ' + nf_text('np.mgrid[0:self.ny, 0:self.nx]'), 'grid in (y, x) order')):
+        expect_stmt(res, 'SPEC', k, w, meaning, pool)
+
+
 def comparisons_in(expr):
     """Flatten `a & b & c` into Compare nodes."""
     out = []
@@ -193,6 +209,10 @@ def run(repo, tier):
     res.assumptions = ['scipy maximum_filter has its documented meaning']
     find_peaks_rules(repo, res)
     base_rules(repo, res)
+    kernel_rules(repo, res)
+    from .common import run_axis_dispatch
+    if run_axis_dispatch(repo, res, MODS) < 1:
+        raise AnalysisError('vanished anchor: axis dispatch in daofind_marginal_fit')
     catalog_rules(repo, res)
     run_negzero(repo, res, MODS, PROP)
     run_loops(repo, res, MODS, rules=('LP1', 'LP1b'))
